@@ -31,6 +31,17 @@ type H struct {
 	Outcomes []string
 	wg       sync.WaitGroup
 	clock    atomic.Int64
+	cleanups []func()
+}
+
+func (h *H) Cleanup(f func()) { h.mu.Lock(); h.cleanups = append(h.cleanups, f); h.mu.Unlock() }
+
+// RunCleanups is called by the free-running driver after the harness body returned.
+func (h *H) RunCleanups() {
+	for i := len(h.cleanups) - 1; i >= 0; i-- {
+		h.cleanups[i]()
+	}
+	h.cleanups = nil
 }
 
 func (h *H) Param(name string, def int) int {
